@@ -9,7 +9,7 @@ PROP = "C10"
 LEVEL = "model_checking"
 ANCHOR_PREFIXES = ["transform::process_tags", "transform::", "context::", "element::SvgElement::bbox", "element::SvgElement::eval_rel", "element::SvgElement::handle_containment", "element::split_relspec",
                    "element::SvgElement::resolve_position", "position::", "connector::"]
-BOUNDS = ("reference DAGs over 2-4 id'd sibling elements built from {absolute rect/circle, |h |V placement, @loc placement, relative size, scalar reference, surround of 1-2, inside of 2, use, "
+BOUNDS = ("reference DAGs over 2-4 id'd sibling elements built from {absolute rect/circle, |h |V placement, @loc placement, relative size, scalar reference, {{#id~scalar}} expression references, group with relatively positioned content, dw/dh-adjusted target, surround of 1-2, inside of 2, use, "
           "line and polyline connectors}; every one of the n! sibling orders; size spelled wh or width/height, position spelled xy or x/y; positions k/2 in [-256,256], sizes integers in [0,64], "
           "gaps k/2 in [-16,16]; connector templates: the paths reached from the seeded valuations (no exhaustive negation); '^' excluded as the property says")
 ASSUMPTIONS = ["the dependency-ordered document (every element after the elements it refers to) defines the expected geometry; both documents run in one engine session over the same variables",
@@ -55,6 +55,16 @@ def node(kind, id_, parents, k0, sp):
         return f'<rect id="{id_}" inside="{p[0]} {p[1]}"/>', []
     if kind == "U":
         return f'<use id="{id_}" href="{p[0]}" x="{a[0]}" y="{a[1]}"/>', [(30, *POS), (-20, *POS)]
+    if kind == "G":      # a group whose content is positioned relative to the parent: the group's extent depends on it
+        return f'<g id="{id_}"><rect xy="{p[0]}|h {a[0]}" {size(a[1], a[2])}/></g>', [(2, *GP), (6, *SZ), (8, *SZ)]
+    if kind == "Hd":     # forward-positioned, longhand size adjusted by dw/dh
+        return f'<rect id="{id_}" xy="{p[0]}|v {a[0]}" width="{a[1]}" height="{a[2]}" dw="{a[3]}" dh="2"/>', [(2, *GP), (6, *SZ), (8, *SZ), (3, 0, 16, 0)]
+    if kind == "E":      # expression-form references to the parent's size and position
+        return (f'<rect id="{id_}" xy="{{{{{p[0]}~x2 + {a[0]}}}}} {{{{{p[0]}~cy}}}}" width="{{{{{p[0]}~w}}}}" height="{{{{{p[0]}~h + 1}}}}"/>', [(2, *GP)])
+    if kind == "EZ":     # expression-form references to size scalars only (own position absolute)
+        return f'<rect id="{id_}" {pos(a[0], a[1])} width="{{{{{p[0]}~w}}}}" height="{{{{{p[0]}~h * 2}}}}"/>', [(70, *POS), (-60, *POS)]
+    if kind == "ER":     # expression-form reference to the radius-like scalars
+        return f'<circle id="{id_}" cxy="{{{{{p[0]}~cx}}}} {{{{{p[0]}~y2}}}}" r="{{{{{p[0]}~rx}}}}"/>', []
     if kind == "K":
         return f'<line id="{id_}" start="{p[0]}" end="{p[1]}"/>', []
     if kind == "KL":
@@ -65,7 +75,7 @@ def node(kind, id_, parents, k0, sp):
 
 
 N0 = ["R", "C"]
-N1 = ["H", "V", "L", "LC", "Z", "X", "S1", "U"]
+N1 = ["H", "V", "L", "LC", "Z", "X", "S1", "U", "G", "Hd", "E", "EZ", "ER"]
 N2 = ["S2", "I2", "K", "KL", "KP"]
 SHAPES = {   # node index -> parents (indices); listed in dependency order
     "pair": [[], [0]],
@@ -76,6 +86,7 @@ SHAPES = {   # node index -> parents (indices); listed in dependency order
     "diamond4": [[], [0], [0], [1, 2]],
     "join-then4": [[], [], [0, 1], [2]],
     "mixed4": [[], [0], [0, 1], [2]],
+    "g-and-sibling": [[], [], [0], [1, 2]],     # surround of an independent element and a group whose content refers elsewhere
 }
 SPELL = [dict(size="wh", pos="xy"), dict(size="long", pos="xy"), dict(size="long", pos="long"), dict(size="wh", pos="long")]
 
@@ -116,12 +127,21 @@ def templates(tier, seed):
     for si in range(4):
         for perm in itertools.permutations(range(3)):
             tds.append(dict(fam="order", shape="chain3", kinds=["R", "H", "S1"], sp=si, perm=list(perm)))
+    for kinds, shape in ((["R", "G", "S2x"], "g-surround"), (["R", "Hd", "E"], "chain3"), (["R", "G", "S1"], "chain3"), (["C", "Hd", "ER"], "chain3"), (["R", "G", "E"], "chain3"), (["R", "Hd", "EZ"], "chain3"), (["C", "L", "EZ"], "chain3")):
+        if shape == "g-surround":
+            continue
+        for si in range(4):
+            for perm in itertools.permutations(range(3)):
+                tds.append(dict(fam="order", shape=shape, kinds=kinds, sp=si, perm=list(perm)))
+    for si in (0, 2):
+        for perm in itertools.permutations(range(4)):
+            tds.append(dict(fam="order", shape="g-and-sibling", kinds=["R", "R", "G", "S2"], sp=si, perm=list(perm)))
     for bad in ("unknown-id", "cycle2", "cycle3", "self", "no-bbox", "unknown-surround", "unknown-connector", "cycle-size"):
         tds.append(dict(fam="unsat", case=bad))
     if tier == "quick":
-        keep = [t for t in tds if t["fam"] == "unsat" or (t.get("kinds") == ["R", "H", "S1"] and t["shape"] == "chain3")]
+        keep = [t for t in tds if t["fam"] == "unsat" or t.get("kinds") in (["R", "H", "S1"], ["R", "Hd", "EZ"], ["C", "L", "EZ"], ["R", "Hd", "E"], ["R", "G", "S1"], ["C", "Hd", "ER"], ["R", "G", "E"], ["R", "R", "G", "S2"])]
         rest = [t for t in tds if t not in keep]
-        tds = keep + sample_quota(rest, lambda t: (t["shape"],), {"pair": 20, "chain3": 50, "fan3": 40, "join3": 40, "chain4": 30, "diamond4": 30, "join-then4": 30, "mixed4": 30}, seed)
+        tds = keep + sample_quota(rest, lambda t: (t["shape"],), {"pair": 20, "chain3": 50, "fan3": 40, "join3": 40, "chain4": 30, "diamond4": 30, "join-then4": 30, "mixed4": 30, "g-and-sibling": 0}, seed)
     return tds
 
 
